@@ -1031,7 +1031,8 @@ impl<'a, 'src: 'a> Compiler<'a, 'src> {
       .offset_line(offset as usize)
       .expect("Line offset out of bounds");
 
-    self.write_instruction(op_code, line as u16 + 1);
+    // the line table holds 16 bit line numbers: later lines all report the last one it can hold
+    self.write_instruction(op_code, (line + 1).min(u16::MAX as usize) as u16);
   }
 
   /// write instruction to the current function
